@@ -636,3 +636,17 @@ def check_take(case):
     if (op.cType or '') != ('L' if kind == 'min' else 'U') * len(want_rows):
         out.append(fail('C02.take.row_type', 'assets:define_restr', case, params, op.cType))
     return out
+
+
+def check_coarse_beyond_horizon(case):
+    """C08: an asset with a coarser frequency whose window reaches beyond the horizon is clipped to the horizon"""
+    eao = eao_mod()
+    out = []
+    tg = eao.assets.Timegrid(pd.Timestamp(2021, 1, 1), pd.Timestamp(2021, 1, 3), freq='h')
+    a = eao.assets.SimpleContract(name='a', nodes=eao.assets.Node('n'), price='p', min_cap=-1, max_cap=1, freq=case['freq'],
+                                  end=pd.Timestamp(2021, 1, 3) + pd.Timedelta(case['days_beyond'], 'd'))
+    try:
+        a.setup_optim_problem({'p': np.ones(tg.T)}, tg)
+    except Exception as e:
+        out.append(fail('C08.coarse.window_beyond_horizon_is_clipped', 'basic_classes:Timegrid.__init__', case, dict(case), f'{type(e).__name__}: {str(e)[:120]}'))
+    return out
